@@ -21,7 +21,7 @@ Ip4Wire(h, body) ==
   LET total == h.ihl * 4 + Len(body)
       flagbits == (IF h.rf THEN 4 ELSE 0) + (IF h.df THEN 2 ELSE 0) + (IF h.mf THEN 1 ELSE 0)
   IN <<h.vnib * 16 + h.ihl, h.tos>> \o U16(total) \o U16(h.ipid) \o <<flagbits * 32 + (Hi(h.frag) % 32), Lo(h.frag)>>
-     \o <<h.ttl, h.proto, 0, 0>> \o h.src \o h.dst \o Rep(1, (h.ihl - 5) * 4) \o body
+     \o <<h.ttl, h.proto, 0, 0>> \o h.src \o h.dst \o Rep(h.ipopt, (h.ihl - 5) * 4) \o body
 
 Ip6Wire(h, body) ==
   <<h.vnib * 16 + (h.tos \div 16), (h.tos % 16) * 16 + h.flow[1]>> \o U16(h.flow[2]) \o U16(Len(body)) \o <<h.proto, h.ttl>>
@@ -39,7 +39,7 @@ Src6 == <<32, 1, 13, 184, 0, 0, 0, 0, 0, 0, 0, 0, 0, 0, 0, 1>>
 Dst6 == <<32, 1, 13, 184, 0, 0, 0, 0, 0, 0, 0, 0, 0, 0, 0, 2>>
 
 \* a plain SYN, to be modified with EXCEPT
-BaseHdr(ver) == [ver |-> ver, vnib |-> ver, dmac |-> <<2, 0, 0, 0, 0, 2>>, smac |-> <<2, 0, 0, 0, 0, 1>>, ttl |-> 64, ihl |-> 5, tos |-> 0, ipid |-> 4660, rf |-> FALSE, df |-> TRUE, mf |-> FALSE, frag |-> 0,
+BaseHdr(ver) == [ver |-> ver, vnib |-> ver, ipopt |-> 1, dmac |-> <<2, 0, 0, 0, 0, 2>>, smac |-> <<2, 0, 0, 0, 0, 1>>, ttl |-> 64, ihl |-> 5, tos |-> 0, ipid |-> 4660, rf |-> FALSE, df |-> TRUE, mf |-> FALSE, frag |-> 0,
                  flow |-> <<0, 0>>, proto |-> 6, src |-> IF ver = 4 THEN Src4 ELSE Src6, dst |-> IF ver = 4 THEN Dst4 ELSE Dst6,
                  sport |-> 40000, dport |-> 80, seq |-> <<18, 52, 86, 120>>, ack |-> Zero4, doff |-> 5, flags |-> SYN,
                  win |-> 65535, urg |-> 0, opts |-> <<>>, payload |-> <<>>]
